@@ -9,6 +9,16 @@ SIMPLE = (ast.Assign, ast.AugAssign, ast.AnnAssign, ast.Expr, ast.Pass, ast.Dele
           ast.Import, ast.ImportFrom, ast.Assert, ast.FunctionDef, ast.AsyncFunctionDef, ast.ClassDef)
 
 
+def _positive(test):
+    """Canonical test node: leading `not`s are stripped and the branch labels swapped accordingly, so that `if not c: A else: B`
+    and `if c: B else: A` give the same graph."""
+    tl, fl = 'T', 'F'
+    while isinstance(test, ast.UnaryOp) and isinstance(test.op, ast.Not):
+        test = test.operand
+        tl, fl = fl, tl
+    return test, tl, fl
+
+
 class Node:
     __slots__ = ('id', 'kind', 'ast', 'stmt')
 
@@ -107,24 +117,26 @@ class CFG:
 
     def _stmt(self, s, ins):
         if isinstance(s, ast.If):
-            t = self._new('test', s.test, s)
+            test, tl, fl = _positive(s.test)
+            t = self._new('test', test, s)
             self.node_of_stmt[s] = t
             self._connect(ins, t)
             self._exc_edges(t)
-            a = self._block(s.body, [(t, 'T')])
-            b = self._block(s.orelse, [(t, 'F')]) if s.orelse else [(t, 'F')]
+            a = self._block(s.body, [(t, tl)])
+            b = self._block(s.orelse, [(t, fl)]) if s.orelse else [(t, fl)]
             return a + b
         if isinstance(s, ast.While):
-            t = self._new('test', s.test, s)
+            test, tl, fl = _positive(s.test)
+            t = self._new('test', test, s)
             self.node_of_stmt[s] = t
             self._connect(ins, t)
             self._exc_edges(t)
             breaks: List[Node] = []
             self._loop_stack.append((t, breaks))
-            body_out = self._block(s.body, [(t, 'T')])
+            body_out = self._block(s.body, [(t, tl)])
             self._loop_stack.pop()
             self._connect(body_out, t)
-            out = self._block(s.orelse, [(t, 'F')]) if s.orelse else [(t, 'F')]
+            out = self._block(s.orelse, [(t, fl)]) if s.orelse else [(t, fl)]
             return out + [(b, 'break') for b in breaks]
         if isinstance(s, (ast.For, ast.AsyncFor)):
             f = self._new('for', s.iter, s)
